@@ -12,7 +12,7 @@ def run(tier, seed, t0):
     okh, outh = C.build_harness()
     if not okh:
         raise RuntimeError("harness build failed:\n" + outh[-3000:])
-    n = 600 if tier == "quick" else 40000
+    n = 600 if tier == "quick" else 6000
     rows = L.run_stream("client", seed, n)
     distinct = set()
     for sess, obs, ref in rows:
